@@ -1313,6 +1313,12 @@ func (p *Parser) evaluateParams(ctx context) ([]Variable, error) {
 		name := nameToken.Value()
 		_, exists := ctx.findVariable(name, p.prefix, false)
 
+		if !exists {
+			exists = slices.ContainsFunc(params, func(param Variable) bool {
+				return param.Name() == name
+			})
+		}
+
 		if exists {
 			return params, fmt.Errorf("scope already contains a variable with the name %s", name)
 		}
